@@ -1,9 +1,10 @@
 (* C19 — Path searches do work polynomial in graph size, never in the number of paths.  Statements only.
    Counted quantity: neighbourhood scans = loop iterations of the models = getOutNeighbours calls of the searches.
-   PARTIAL: the bounds for findVertexPredecessors (<= V) and findGeodesicsDijkstra (<= 1 + E <= V + E + 1) are proved; the bound for
-   findAllVertexPredecessors (<= V <= V + E after the repair) is checked against the implementation and the model's counter only. *)
+   Proved: findVertexPredecessors <= V, findAllVertexPredecessors <= V (after the repair; <= V + E a fortiori), findGeodesicsDijkstra
+   <= 1 + E <= V + E + 1 for every legal pop sequence.  The path ENUMERATIONS (findAllGeodesics) are necessarily proportional to their
+   output and are not bounded by the property. *)
 From Coq Require Import List Arith NArith Lia.
-From BG Require Import Base Bfs Dj PathsModel PathsProofs.
+From BG Require Import Base Bfs Dj PathsModel PathsProofs BfsAllProofs.
 Import ListNotations.
 
 Theorem C19_single_predecessor_scans : forall (g : adjl) (s : nat), Bfs.wf g -> s < length g ->
@@ -16,8 +17,10 @@ Theorem C19_dijkstra_scans : forall (g : Dj.wadj) (s : nat) (cs : list nat) (o :
 Proof. intros g s cs o W H E L D. destruct (dijkstra_spec g s W H cs o E L D) as [_ [_ [_ [_ [B _]]]]]. exact B. Qed.
 Print Assumptions C19_dijkstra_scans.
 
-Definition C19_all_predecessors_full_statement : Prop := forall (g : adjl) (s : nat), Bfs.wf g -> s < length g ->
+Theorem C19_all_predecessors_scans : forall (g : adjl) (s : nat), Bfs.wf g -> s < length g ->
   exists o, bfs_all true true (length g) g s = Val o /\ ao_scans o <= length g.
+Proof. exact BfsAllProofs.C19_all_predecessors_scans. Qed.
+Print Assumptions C19_all_predecessors_scans.
 
 (* the pinned commit: one enqueue per discovery. On the width-2 layered graph with 4 layers the search makes 47 scans, V + E = 10 + 16 = 26 *)
 Example C19_refuted_on_pinned :
